@@ -32,6 +32,7 @@ func main() {
 	}
 	gens := []gen{
 		{"Orch.lean", extractOrch},
+		{"fingerprints.json", extractFingerprints},
 	}
 	for _, g := range gens {
 		s, err := g.fn(*repo)
